@@ -30,25 +30,38 @@ func itoa(v int64) string {
 	return s
 }
 
+const lowerDigits = "0123456789abcdefghijklmnopqrstuvwxyz"
+const upperDigits = "0123456789ABCDEFGHIJKLMNOPQRSTUVWXYZ"
+
+// utoa formats u in the given base. The number of digits is found by
+// comparing u with the powers of the base (so that a symbolic u forks on plain
+// comparisons, never on a condition that contains a division), the digits are
+// then table lookups.
 func utoa(u uint64, base uint64, upper bool) string {
 	if u == 0 {
 		return "0"
 	}
-	var buf [64]byte
-	i := len(buf)
-	for u != 0 {
-		d := byte(u % base)
-		u /= base
-		i--
-		if d < 10 {
-			buf[i] = '0' + d
-		} else if upper {
-			buf[i] = 'A' + d - 10
-		} else {
-			buf[i] = 'a' + d - 10
+	n := 1
+	for p := base; ; n++ {
+		if u < p {
+			break
 		}
+		if p > ^uint64(0)/base {
+			n++ // p*base overflows: u has one digit more than p and that is the maximum
+			break
+		}
+		p *= base
 	}
-	return string(buf[i:])
+	digits := lowerDigits
+	if upper {
+		digits = upperDigits
+	}
+	buf := make([]byte, n)
+	for i := n - 1; i >= 0; i-- {
+		buf[i] = digits[u%base]
+		u /= base
+	}
+	return string(buf)
 }
 
 func quote(s string) string {
